@@ -205,6 +205,38 @@ def _corrupt_im_checksum_value_set(o):
     sorted((i for v in o.images.values() for a in v.values() for i in a), key=lambda i: i.path)[-1].checksums = {"sha256": set([1])}
 
 
+def _corrupt_ci_surrogate(o):
+    o.release.name = "bad \udcff name"          # (what os.listdir() yields for a file name that is not valid UTF-8)
+
+
+def _corrupt_ti_surrogate(o):
+    o.release.name = "bad \udcff name"
+
+
+def _corrupt_di_surrogate(o):
+    o.description = "bad \udcff"
+
+
+def _corrupt_im_surrogate(o):
+    sorted((i for v in o.images.values() for a in v.values() for i in a), key=lambda i: i.path)[0].volume_id = "vol \udcff"
+
+
+def _corrupt_rpms_surrogate(o):
+    o.rpms["Server"]["x86_64"]["bash-0:4.3-1.fc23.src"]["bash-0:4.3-1.fc23.x86_64"]["path"] = "p/\udcff.rpm"
+
+
+def _corrupt_im_collision_after_add(o):
+    imgs = sorted((i for v in o.images.values() for a in v.values() for i in a), key=lambda i: i.path)
+    a, b = imgs[0], imgs[1]
+    for k in ("subvariant", "type", "format", "arch", "disc_number", "unified", "additional_variants"):
+        setattr(b, k, getattr(a, k))
+    b.checksums = {"sha256": "9" * 64}           # passes every dump-time validator; a loader would refuse the file
+
+
+def _corrupt_di_disc_range(o):
+    o.disc_numbers = ["1-2"]
+
+
 # real invalid values whose defect sits in a nested part: (base, corrupting function)
 REAL = [
     ("composeinfo:flat", _corrupt_ci_label), ("composeinfo:layered", _corrupt_ci_release),
@@ -224,6 +256,12 @@ REAL = [
     # payload tables are stored as given: values the file format cannot represent only fail when the text is built
     ("rpms", _corrupt_rpms_payload_set), ("modules", _corrupt_modules_payload_bytes), ("extra_files", _corrupt_extra_payload_object),
     ("images:grid", _corrupt_im_checksum_value_set),
+    # text no file encoding can represent
+    ("composeinfo:flat", _corrupt_ci_surrogate), ("treeinfo:flat", _corrupt_ti_surrogate), ("discinfo", _corrupt_di_surrogate),
+    ("images:grid", _corrupt_im_surrogate), ("rpms", _corrupt_rpms_surrogate),
+    # objects every dump-time validator accepts although a loader would refuse the written file: if the dump fails for
+    # them (it need not), the destination must be untouched all the same
+    ("images:grid", _corrupt_im_collision_after_add), ("discinfo", _corrupt_di_disc_range),
 ]
 REAL_BY_NAME = {"%s/%s" % (b, f.__name__[9:]): (b, f) for b, f in REAL}
 
@@ -259,7 +297,8 @@ def trace_dump(base):
 
 
 def eval_fault(base, i, pre_existing, corrupt=None):
-    """Dump with the i-th validator invocation failing (or with a really invalid nested value); report what happened to the path."""
+    """Dump with the i-th validator invocation failing (or with a really invalid nested value); report what happened to the path.
+    pre_existing: False (no file), True (previous good copy), "hardlinked" (previous good copy that has a second name)."""
     install_shims()
     tmp = tempfile.mkdtemp(prefix="c18-")
     try:
@@ -269,6 +308,9 @@ def eval_fault(base, i, pre_existing, corrupt=None):
             _do_dump(base, BASES[base][0](), path)
             with open(path, "rb") as f:
                 before = f.read()
+            if pre_existing == "hardlinked":
+                os.link(path, os.path.join(tmp, "second-name"))
+                ino = os.stat(path).st_ino
         obj = BASES[base][0]()
         if corrupt:
             REAL_BY_NAME[corrupt][1](obj)
@@ -286,17 +328,24 @@ def eval_fault(base, i, pre_existing, corrupt=None):
         if exists:
             with open(path, "rb") as f:
                 after = f.read()
+        link_ok = None
+        if pre_existing == "hardlinked":
+            other = os.path.join(tmp, "second-name")
+            link_ok = bool(exists and os.path.exists(other) and os.stat(path).st_ino == ino == os.stat(other).st_ino)
+            if os.path.exists(other):
+                with open(other, "rb") as f:
+                    link_ok = link_ok and f.read() == before
         return {"raised": raised, "failed_in": where if i else None,
                 "existed_before": before is not None, "exists_after": exists,
                 "bytes_unchanged": (before == after) if (before is not None and exists) else None,
-                "size_after": len(after) if after is not None else None,
-                "other_files": sorted(x for x in os.listdir(tmp) if x != "metadata.out")}
+                "size_after": len(after) if after is not None else None, "still_the_same_hardlinked_file": link_ok,
+                "other_files": sorted(x for x in os.listdir(tmp) if x not in ("metadata.out", "second-name"))}
     finally:
         shutil.rmtree(tmp, ignore_errors=True)
 
 
 def untouched(o):
-    if o["other_files"]:
+    if o["other_files"] or o.get("still_the_same_hardlinked_file") is False:
         return False
     if o["existed_before"]:
         return o["exists_after"] and o["bytes_unchanged"] is True
@@ -316,7 +365,7 @@ def run_unit(unit, acc):
             raise RuntimeError("no validator invocation observed while dumping %s" % base)
         acc.extra.setdefault("injection_points", {})[base] = len(log)
         for i in range(1, len(log) + 1):
-            for pre in (False, True):
+            for pre in (False, True, "hardlinked"):
                 o = eval_fault(base, i, pre)
                 acc.ev()
                 case = {"kind": "fault", "base": base, "i": i, "pre_existing": pre}
@@ -339,7 +388,7 @@ def run_unit(unit, acc):
     else:
         name = unit[1]
         base = REAL_BY_NAME[name][0]
-        for pre in (False, True):
+        for pre in (False, True, "hardlinked"):
             o = eval_fault(base, None, pre, corrupt=name)
             acc.ev()
             case = {"kind": "real", "name": name, "pre_existing": pre}
@@ -370,7 +419,7 @@ def describe(tier):
         "rule": "for each of 12 base objects (composeinfo flat/forest/layered, images grid/1.1, rpms, modules, extra files, "
                 "treeinfo flat/nested(with main_variant)/layered, discinfo): every validator invocation made during dump(path) - "
                 "those of the top-level validate() and those made inside nested section writers - fails once (injected ValueError), "
-                "for both pre-states {no file, previous good copy}; plus 31 really invalid values (16 out-of-domain nested values, 11 wrong-typed values of validated fields, 4 unencodable values in payload tables that are stored as given).  Oracle: dump raises and "
+                "for three pre-states {no file, previous good copy, previous good copy with a second hard link}; plus 38 really invalid values (16 out-of-domain nested values, 11 wrong-typed values of validated fields, 4 unencodable values in payload tables that are stored as given, 5 texts with a lone surrogate that no file encoding can represent, 2 objects that pass the dump-time validators although a loader would refuse the file).  Oracle: dump raises and "
                 "the path has exactly its pre-state (same bytes / still absent), no other file appears.  Non-trivial: a failure "
                 "point inside a nested writer (beyond the top-level check) or a real invalid value.",
         "bound": "one failure per dump; all injection points of each base object",
